@@ -134,6 +134,16 @@ func (c *monC13) After(m *Machine, s *Step) *Violation {
 			c.sms[b].alt = prevSMS // the faulted request may not have stored the new code in the session
 		}
 	}
+	if (op.K == "totpvalidate" || op.K == "smsvalidate") && op.F && s.Secret != "" && r.SessAfter[authboss.Session2FA] != "" && r.SessBefore[authboss.Session2FA] == "" {
+		// a recovery code that completed a login is used up from now on, whatever storage says
+		if who := r.UID(); who != "" && recoveryInList(s.Pre.Users[who].RecoveryCodes, s.Secret) {
+			if c.spentRec == nil {
+				c.spentRec = map[string]bool{}
+			}
+			c.spentRec[who+"|"+s.Secret] = true
+			m.flag("recovery-code-logged-in")
+		}
+	}
 	uid := r.SessBefore[authboss.SessionKey]
 	_, half := r.SessBefore[authboss.SessionHalfAuthKey]
 	if uid != "" && !(c.level[b] == "full" && c.who[b] == uid) {
